@@ -162,6 +162,8 @@ def _chunk(pid: str, profile: str, base_seed: int, start: int, count: int, want_
     mode = {"recheck": False, "digs": []}
 
     def run(source: Source, sample: bool = False):
+        if sample and not mode["recheck"]:
+            source.record_labels = True
         res = execute(prop, profile, source, keep_log=sample and not mode["recheck"], known=known)
         mode["digs"].append(res["digest"])
         if mode["recheck"]:
@@ -209,8 +211,11 @@ def _chunk(pid: str, profile: str, base_seed: int, start: int, count: int, want_
         digs_first = mode["digs"]
         if sample and first is not None and first.get("program") is not None:
             agg["samples"].append({"seed": seed, "profile": profile, "program": first["program"],
+                                   "choice_list": first["trace"][:80], "choice_labels": (first.get("labels") or [])[:80],
                                    "schedule_len": len(first["trace"]),
-                                   "events": len(first.get("log") or [])})
+                                   "events": len(first.get("log") or []),
+                                   "event_log_head": (first.get("log") or [])[:40],
+                                   "outcome": first["outcome"], "digest": first["digest"][:16]})
         # in-process determinism re-check on the first seeds of every chunk
         if i < start + 2:
             mode["recheck"], mode["digs"] = True, []
